@@ -23,7 +23,7 @@ for p in ALL:
             "text": m.get("level_text") or ("Bounded model checking of the compiled implementation: within the stated bounds (%s) the SAT solver shows the oracle holds for every value of the symbolic inputs, or returns a counterexample that is re-executed natively before it is reported. Not a proof beyond the bounds." % m.get("bounds", "")),
             "design_ref": "DESIGN.md §5 " + p,
         },
-        "level_note": (m.get("level_note") or "") + " Trusted base: Kani/CBMC/CaDiCaL; contract models of crossbeam::channel, rusty_pool and std::thread; stubs for Arc::drop_slow, fmt::format, Instant::now. Outside the claim: " + m.get("outside", ""),
+        "level_note": (m.get("level_note") or "") + " Trusted base: Kani/CBMC/CaDiCaL; contract models of crossbeam::channel, rusty_pool and std::thread; stubs for Arc::drop_slow, fmt::format, Instant::{now,elapsed}, Mutex::lock (-> try_lock), the cfg(kani) clock and thread models (hooks H2/H4). Outside the claim: " + m.get("outside", ""),
         "technique": m.get("technique", TECH),
     }
     if m.get("thorough") is not None:
